@@ -29,7 +29,8 @@ Every primitive whose failure the property quantifies over consults the *fault p
 appends `Event.fault` to the trace (so "some primitive failed" is visible in the trace) and
 raises; exceptions are values.
 
-Uninterpreted (an `Oracle`, all theorems quantify over it): `os.path`-based `normrelpath` + `'/'.join(… .split(sep))`,
+Uninterpreted (an `Oracle`, all theorems quantify over it): `os.path.relpath/normpath/dirname` inside `normrelpath`
+(its `isabs` guard IS modelled, posix), 
 the pure part of `sourcemap.write` (mappings, sources, names), `json.dumps ∘ encode_sourcemap`,
 base64 of the encoded text, `repr`.
 
@@ -196,8 +197,8 @@ structure Triple where
   names : String
 
 structure Oracle where
-  /-- `'/'.join(normrelpath(base, target).split(sep))` -/
-  normrel : String → String → String
+  /-- `'/'.join(relpath(normpath(target), dirname(normpath(base))).split(sep))` for two absolute paths -/
+  relpath : String → String → String
   /-- the value `sourcemap.write(fragments, _, normalize)` returns -/
   smWrite : Bool → List Frag → Triple
   /-- `json.dumps(encode_sourcemap(file, mappings, sources, names), sort_keys=True, ensure_ascii=False)` -/
@@ -208,6 +209,14 @@ structure Oracle where
   reprStr : String → String
   /-- `repr` of a stream object -/
   reprStream : Sid → String
+
+/-- `os.path.isabs` (posix): the path starts with `/` -/
+def isAbs (s : String) : Bool := s.toList.head? == some '/'
+
+/-- `'/'.join(normrelpath(base, target).split(sep))`: `utils.normrelpath` returns `target` unchanged unless
+    BOTH paths are absolute (for a relative `target` without back-slashes the join/split is the identity) -/
+def Oracle.normrel (o : Oracle) (base target : String) : String :=
+  if isAbs base && isAbs target then o.relpath base target else target
 
 def INVALID_SOURCE : String := "about:invalid"
 def defaultEncoding : String := "utf8"
